@@ -475,3 +475,109 @@ _run_c34b = run
 def run(ctx):  # noqa: F811
     _run_c34b(ctx)
     r34_4(ctx, ctx.model)
+
+
+def thread_rule(ctx, rid, mod, names):
+    """inside a function that owns a value called `name` (parameter or local), every call of a module function that has a parameter
+    `name` passes that value"""
+    takers = {}
+    for fi in mod.all_functions:
+        for nm in names:
+            if nm in fi.params():
+                takers.setdefault(fi.name, (fi, set()))[1].add(nm)
+    n = 0
+    for fi in mod.all_functions:
+        own = set(fi.params()) | {t.id for st in walk_no_nested(fi.node) if isinstance(st, ast.Assign) for t in ast.walk(st.targets[0]) if isinstance(t, ast.Name)}
+        for c in walk_no_nested(fi.node):
+            if not (isinstance(c, ast.Call) and isinstance(c.func, ast.Name) and c.func.id in takers and c.func.id != fi.name):
+                continue
+            callee, nms = takers[c.func.id]
+            for nm in sorted(nms & own):
+                n += 1
+                ctx.saw_func(fi)
+                pos_idx = callee.params().index(nm)
+                kwonly = {a.arg for a in callee.node.args.kwonlyargs}
+                given = next((src(k.value) for k in c.keywords if k.arg == nm), None)
+                if given is None and nm not in kwonly and len(c.args) > pos_idx:
+                    given = src(c.args[pos_idx])
+                key = f"{fi.key}::`{short(c, 40)}` receives this function's {nm}"
+                if given is None:
+                    ctx.bad(rid, key, f"{callee.name} falls back to its default `{nm}` although the caller computed/received one", fi, c)
+                else:
+                    ctx.check(rid, key, given == nm, f"receives `{given}`", fi, c)
+    return n
+
+
+def r34_5(ctx, m):
+    ctx.rule("R34.5", "eigenvalue batches on resume (both implementations): the precomputed count shortens exactly ONE batch - in "
+                      "the loop over the planned batches whole batches are skipped while skip >= batch, the first partially covered "
+                      "batch is shortened by skip AND skip is reset to 0 - so that the batches sum to n_eigenvalues - n_precomputed", floor=2)
+    for modn in (EC, EJ):
+        fi = m.func(modn, "_eigsh", required=False)
+        if fi is None:
+            ctx.und("R34.5", f"{modn}::_eigsh", "function missing", modn)
+            continue
+        ctx.saw_func(fi)
+        key = f"{fi.key}::the skip counter is consumed exactly once"
+        found = False
+        for lp in ast.walk(fi.node):
+            if not isinstance(lp, ast.For):
+                continue
+            bv = src(lp.target)
+            for st in lp.body:
+                if isinstance(st, ast.If) and isinstance(st.test, ast.Compare) and len(st.test.ops) == 1:
+                    subs = [a for a in st.body if isinstance(a, ast.AugAssign) and isinstance(a.op, ast.Sub) and src(a.target) == bv and isinstance(a.value, ast.Name)]
+                    if not subs:
+                        continue
+                    found = True
+                    sk = subs[0].value.id
+                    reset = [a for a in st.body if (isinstance(a, ast.Assign) and src(a.targets[0]) == sk and src(a.value) in ("0", "0.0")) or
+                             (isinstance(a, ast.AugAssign) and src(a.target) == sk and isinstance(a.op, ast.Sub) and src(a.value) == sk)]
+                    after = [a for a in reset if a.lineno > subs[0].lineno]
+                    ctx.check("R34.5", key, bool(after), f"`{src(subs[0])}` in `if {src(st.test)}`" + ("" if after else
+                              f": `{sk}` keeps its value, so every later batch is shortened (or skipped) again and fewer eigenvalues than requested are computed"), fi, subs[0])
+        if not found:
+            ctx.und("R34.5", key, "batch-shortening statement not found", fi)
+    ctx.rule("R34.6", "nifty.re ELBO: values computed for the chosen trace space (eigenvalue_shift, solver_shift) are handed to every "
+                      "helper that has a parameter of that name (the early-stop test of the eigen-solver compares against the shift: "
+                      "1 in signal space, 0 in data space)", floor=2)
+    n = thread_rule(ctx, "R34.6", m.module(EJ), ("eigenvalue_shift", "solver_shift"))
+    if not n:
+        ctx.und("R34.6", f"{EJ}::threading", "no call site found", EJ)
+    ctx.rule("R34.7", "stochastic Lanczos quadrature with deflation: probes are normalised with a denominator that is guarded against "
+                      "zero (where(norm2 > eps, norm2, 1)) - a probe that lies in the deflated span has norm 0 after projection and "
+                      "must contribute 0, not NaN", floor=1)
+    mod = m.module(LZ)
+    hit = False
+    for fn in ast.walk(mod.tree):
+        if not (isinstance(fn, ast.FunctionDef) and fn.name == "make_batch_probes"):
+            continue
+        hit = True
+        defl = any(isinstance(st, ast.Assign) and isinstance(st.value, ast.BinOp) and isinstance(st.value.op, ast.Sub) and src(st.targets[0]) == src(st.value.left)
+                   for st in ast.walk(fn))
+        loc = {src(st.targets[0]): st.value for st in ast.walk(fn) if isinstance(st, ast.Assign) and isinstance(st.targets[0], ast.Name)}
+        divs = [b for b in ast.walk(fn) if isinstance(b, ast.BinOp) and isinstance(b.op, ast.Div)]
+        key = f"{mod.relpath}::make_batch_probes::normalisation is guarded against zero norm"
+        if not divs or not defl:
+            ctx.und("R34.7", key, "deflation / normalisation not found", mod.relpath)
+            continue
+        for b in divs:
+            names = [x.id for x in ast.walk(b.right) if isinstance(x, ast.Name) and x.id in loc]
+            guarded = any(isinstance(loc[nm_], ast.Call) and call_name(loc[nm_]) in ("where", "maximum", "clip", "select") for nm_ in names)
+            raw_norm = any(isinstance(loc[nm_], ast.Call) and call_name(loc[nm_]) in ("sum", "norm", "vdot", "dot", "einsum") for nm_ in names)
+            if guarded:
+                ctx.ok("R34.7", key, f"`{src(b)}` with {[f'{n_} = {src(loc[n_])}' for n_ in names]}", mod.relpath, b)
+            elif raw_norm:
+                ctx.bad("R34.7", key, f"`{src(b)}` divides by the raw norm of a deflated probe: 0/0 = NaN for a probe in the deflated span", mod.relpath, b)
+            else:
+                ctx.und("R34.7", key, f"`{src(b)}` not recognised", mod.relpath, b)
+    if not hit:
+        ctx.und("R34.7", f"{mod.relpath}::make_batch_probes", "function not found", mod.relpath)
+
+
+_run_c34c = run
+
+
+def run(ctx):  # noqa: F811
+    _run_c34c(ctx)
+    r34_5(ctx, ctx.model)
